@@ -1,10 +1,10 @@
 (* Extraction of the C03 model (ExtrOcamlBasic only; Z/positive/nat stay inductive). *)
 From LV Require Import Region.RegionDefs Gen.Consts_C03 Gen.Funs_C03
-     Wire.CountsModel Wire.CapsModel Wire.UpdateModel Wire.S2CModel.
+     Wire.CountsModel Wire.CapsModel Wire.UpdateModel Wire.ClipModel Wire.S2CModel.
 Require Import ExtrOcamlBasic.
 Extraction Language OCaml.
 Extraction "../build/ocaml/C03/model.ml"
-  caps_init set_encodings model_update hdr_matches phdr_count region_of_rects
+  caps_init set_encodings model_update model_update_sel hdr_matches phdr_count region_of_rects
   on_fur fur_accepted clip_request on_pixfmt on_ptr_moved on_set_cursor on_newfb on_setscale on_sds_fail
   emit_rect announce n_region_rects emit_region emitted_len copy_ublen copy_peak count_tight
   parse_stream pst_set_fb pst_set_encodings pst_set_format pst_set_scale
